@@ -414,8 +414,225 @@ def correspondence(rng, tier):
     return [cs]
 
 
+# ------------------------------------------------------------------- probes
+def _rand_float_axis(rng, n=None):
+    """Non-dyadic axis (tolerances apply): used by probes only."""
+    n = n or rng.choice([1, 2, 3, 5, 8, 13])
+    c = [rng.uniform(-3, 3)]
+    for _ in range(n - 1):
+        c.append(c[-1] + rng.uniform(0.05, 2.0))
+    lo = c[0] - rng.choice([0.0, rng.uniform(0, 1)])
+    hi = c[-1] + rng.choice([0.0, rng.uniform(0, 1)])
+    return lo, hi, c
+
+
+def _axes_of(p):
+    return [(float(p.min_pt[i]), float(p.max_pt[i]), p.coord_vectors[i].tolist()) for i in range(p.ndim)]
+
+
+_PRE = "import odl, numpy as np\n"
+
+
+def _mk_src(axes, name='p'):
+    return ("%s = odl.RectPartition(odl.IntervalProd(%r, %r), odl.RectGrid(*%r))\n"
+            % (name, [a[0] for a in axes], [a[1] for a in axes], [list(a[2]) for a in axes]))
+
+
+def _run(src):
+    env = {}
+    try:
+        exec(src, env)
+        return bool(env.get('ok')), env
+    except Exception as e:     # a probe that raises counts as failing
+        return False, {'exc': repr(e)}
+
+
 def probes(rng, tier):
-    return []
+    out = []
+    N = 1 if tier == 'quick' else 4
+
+    def probe(key, what, src):
+        ok, env = _run(src)
+        out.append(C.Probe(ok, key, what, src, {k: repr(env[k])[:200] for k in ('observed', 'expected', 'exc') if k in env}))
+
+    # -- P1 tiling, incl. non-dyadic coordinates
+    tiling = (
+        "ok = True\n"
+        "for ax in range(p.ndim):\n"
+        "    b = p.cell_boundary_vecs[ax]; c = p.coord_vectors[ax]; lo = p.min_pt[ax]; hi = p.max_pt[ax]\n"
+        "    ok &= len(b) == len(c) + 1 and b[0] == lo and b[-1] == hi\n"
+        "    ok &= bool(np.all(np.diff(b) > 0)) if (len(c) > 1 or hi > lo) else bool(np.all(np.diff(b) >= 0))\n"
+        "    ok &= bool(np.all(b[:-1] <= c) and np.all(c <= b[1:]))\n")
+    sizes = (
+        "ok = True\n"
+        "for ax in range(p.ndim):\n"
+        "    b = p.cell_boundary_vecs[ax]; sz = p.cell_sizes_vecs[ax]\n"
+        "    ok &= bool(np.allclose(sz, np.diff(b), rtol=1e-12, atol=1e-12))\n"
+        "    ok &= bool(abs(sz.sum() - p.extent[ax]) <= 1e-12 * max(1.0, abs(p.extent[ax])))\n"
+        "observed = [v.tolist() for v in p.cell_sizes_vecs]; expected = [np.diff(v).tolist() for v in p.cell_boundary_vecs]\n")
+    for _ in range(40 * N):
+        nd = rng.choice([1, 2, 3])
+        axes = [(_rand_float_axis(rng) if rng.random() < 0.5 else rand_axis(rng)) for _ in range(nd)]
+        src = _PRE + _mk_src(axes)
+        probe('tiling-boundaries', 'boundaries start/end at the limits, increase, node i in cell i', src + tiling)
+        single = any(len(a[2]) == 1 and a[1] > a[0] for a in axes)
+        probe('cell_sizes-single-point-axis' if single else 'cell-sizes-sum',
+              'cell_sizes_vecs are the cell widths and sum to the extent', src + sizes)
+
+    # -- P2 uniform: side * (n - (bl+br)/2) = extent, requested placement
+    for _ in range(60 * N):
+        n = rng.choice([1, 1, 2, 3, 4, 7, 16, 33])
+        lo = rng.choice([0.0, -1.0, rng.uniform(-2, 2)])
+        hi = lo + rng.choice([1.0, 3.0, rng.uniform(0.1, 5)])
+        fl = (rng.random() < 0.5, rng.random() < 0.5)
+        src = (_PRE + "p = odl.uniform_partition_fromintv(odl.IntervalProd(%r, %r), %d, nodes_on_bdry=[%r])\n"
+               "s = p.cell_sides[0]; h = (%d + %d) / 2.0; ext = %r - %r\n"
+               "observed = (float(s * (%d - h)), p.nodes_on_bdry_byaxis[0]); expected = (ext, %r)\n"
+               "ok = abs(observed[0] - ext) <= 1e-12 * ext and observed[1] == expected[1]\n"
+               "fr = p.boundary_cell_fractions[0]\n"
+               "ok = ok and all(abs(f - (0.5 if b else 1.0)) <= 1e-12 for f, b in zip(fr, %r))\n"
+               % (lo, hi, n, fl, fl[0], fl[1], hi, lo, n, fl, fl))
+        key = 'uniform-one-point-nodes-on-bdry' if (n == 1 and any(fl)) else 'uniform-side-count-placement'
+        probe(key, 'uniform partition: cell side * (n - (bl+br)/2) = extent, nodes placed as requested, fractions 1/2 | 1', src)
+
+    # -- P3 index: containing cell, fractional position, p[p.index(x)] is that cell
+    idx = (
+        "ok = True\n"
+        "i = np.atleast_1d(p.index(x)); f = np.atleast_1d(p.index(x, floating=True))\n"
+        "cell = p[tuple(int(k) for k in i)]\n"
+        "for ax in range(p.ndim):\n"
+        "    b = p.cell_boundary_vecs[ax]; k = int(i[ax]); xv = np.atleast_1d(x)[ax]\n"
+        "    ok &= 0 <= k < len(b) - 1 and b[k] <= xv <= b[k + 1]\n"
+        "    ok &= (k + 1 == len(b) - 1 or xv < b[k + 1])          # on an edge -> right cell, except the last edge\n"
+        "    ok &= abs(b[k] + (f[ax] - k) * (b[k + 1] - b[k]) - xv) <= 1e-12 * max(1.0, abs(xv)) and k <= f[ax] <= k + 1\n"
+        "    ok &= cell.min_pt[ax] == b[k] and cell.max_pt[ax] == b[k + 1] and cell.shape[ax] == 1\n"
+        "    ok &= cell.coord_vectors[ax][0] == p.coord_vectors[ax][k]\n"
+        "ok = bool(ok); observed = (i.tolist(), f.tolist())\n")
+    for _ in range(60 * N):
+        nd = rng.choice([1, 2, 3])
+        axes = [(_rand_float_axis(rng) if rng.random() < 0.5 else rand_axis(rng)) for _ in range(nd)]
+        p = mkpart(axes)
+        x = []
+        for ax in range(nd):
+            r = rng.random()
+            if r < 0.4:
+                x.append(float(rng.choice(p.cell_boundary_vecs[ax].tolist())))
+            elif r < 0.5:
+                x.append(float(rng.choice(axes[ax][2])))
+            else:
+                x.append(rng.uniform(axes[ax][0], axes[ax][1]))
+        xs = repr(x[0]) if nd == 1 else repr(x)
+        probe('index-containing-cell', 'index(x) is the cell containing x; floating position; p[index] extracts it',
+              _PRE + _mk_src(axes) + 'x = %s\n' % xs + idx)
+
+    # -- P4 __getitem__: the cells of the result are exactly the selected cells
+    getit = (
+        "sel = [np.atleast_1d(np.arange(n)[i]) for n, i in zip(p.shape, norm)]\n"
+        "ok = q.ndim == p.ndim\n"
+        "for ax in range(p.ndim):\n"
+        "    b = p.cell_boundary_vecs[ax]; rb = q.cell_boundary_vecs[ax]; s = sel[ax]\n"
+        "    ok = ok and len(rb) == len(s) + 1 and bool(np.all(rb[:-1] == b[s]) and np.all(rb[1:] == b[s + 1]))\n"
+        "    ok = ok and bool(np.all(q.coord_vectors[ax] == p.coord_vectors[ax][s]))\n"
+        "observed = [v.tolist() for v in q.cell_boundary_vecs]\n"
+        "expected = [[p.cell_boundary_vecs[a][s].tolist(), p.cell_boundary_vecs[a][s + 1].tolist()] for a, s in enumerate(sel)]\n")
+    for _ in range(80 * N):
+        p = rand_part(rng)
+        nd = p.ndim
+        items, stepped = [], False
+        for n in p.shape:
+            r = rng.random()
+            if r < 0.3:
+                items.append(rng.randint(-n, n - 1))
+            else:
+                a = rng.randint(0, n - 1)
+                b_ = rng.randint(a + 1, n)
+                st = rng.choice([None, None, 1, 2, 3]) if rng.random() < 0.4 else None
+                sl = slice(rng.choice([a, a - n]) if a or rng.random() < 0.5 else None,
+                           rng.choice([b_, b_ - n]) if b_ < n else rng.choice([None, n, n + 2]), st)
+                if list(range(n)[sl]) != list(range(n)[slice(sl.start, sl.stop)]):
+                    stepped = True
+                items.append(sl)
+        norm = list(items)
+        form = rng.random()
+        if form < 0.2 and nd > 1 and items[-1] == slice(None):
+            expr = tuple(items[:-1])                      # too few indices
+        elif form < 0.4 and nd > 1:
+            k = rng.randrange(nd)
+            if all(isinstance(i, slice) and i == slice(None) for i in items[k:k + 1]):
+                expr = tuple(items[:k]) + (Ellipsis,) + tuple(items[k + 1:])
+            else:
+                expr = tuple(items)
+        else:
+            expr = tuple(items) if nd > 1 or rng.random() < 0.5 else items[0]
+        src = (_PRE + "from builtins import slice, Ellipsis\n" + _mk_src(_axes_of(p)) +
+               "expr = %r\nnorm = %r\nq = p[expr]\n" % (expr, norm) + getit)
+        probe('getitem-step-slice-cells' if stepped else 'getitem-selected-cells',
+              'p[ints/slices/ellipsis]: cells of the result are exactly the selected cells', src)
+    # index lists along the first axis
+    for _ in range(20 * N):
+        p = rand_part(rng)
+        n = p.shape[0]
+        l = sorted(rng.sample(range(n), rng.randint(1, n)))
+        contiguous = l == list(range(l[0], l[-1] + 1))
+        src = (_PRE + _mk_src(_axes_of(p)) + "q = p[%r]\nnorm = [%r] + [slice(None)] * (p.ndim - 1)\n" % (l, l) + getit)
+        probe('getitem-selected-cells' if contiguous else 'getitem-list-noncontiguous-cells',
+              'p[list]: cells of the result are exactly the selected cells', src)
+    # integers below -n must be rejected like any out-of-range index
+    for n in ([2, 3, 5] if tier == 'quick' else [1, 2, 3, 4, 5, 8]):
+        for i in (n, n + 1, -n - 1, -n - 2, -2 * n):
+            if i == -2 * n and n == 1:
+                continue
+            src = (_PRE + "p = odl.uniform_partition(0, %d, %d)\n"
+                   "try:\n    observed = repr(p[%d]); ok = False\nexcept IndexError:\n    observed = 'IndexError'; ok = True\n"
+                   "expected = 'IndexError'\n" % (n, n, i))
+            probe('getitem-int-below-minus-n' if i < -n else 'getitem-int-out-of-range',
+                  'p[i] with i outside [-n, n) raises IndexError', src)
+
+    # -- P5 insert / append / squeeze / byaxis act axis-wise
+    axw = ("A = lambda t: [(float(t.min_pt[i]), float(t.max_pt[i]), t.coord_vectors[i].tolist()) for i in range(t.ndim)]\n"
+           "observed = A(q); ok = observed == expected\n")
+    for _ in range(30 * N):
+        p = rand_part(rng, rng.choice([1, 2, 3]), nmax=4)
+        parts = [rand_part(rng, rng.choice([1, 2]), nmax=3) for _ in range(rng.choice([1, 1, 2, 3]))]
+        i = rng.randint(-p.ndim, p.ndim)
+        j = i + p.ndim if i < 0 else i
+        pa = _axes_of(p)
+        exp = pa[:j] + [a for t in parts for a in _axes_of(t)] + pa[j:]
+        src = (_PRE + _mk_src(pa) + ''.join(_mk_src(_axes_of(t), 't%d' % k) for k, t in enumerate(parts)) +
+               "q = p.insert(%d, %s)\nexpected = %r\n" % (i, ', '.join('t%d' % k for k in range(len(parts))), exp) + axw)
+        probe('insert-axiswise', 'insert(i, *parts) splices the axes of the parts at position i', src)
+        src = (_PRE + _mk_src(pa) + ''.join(_mk_src(_axes_of(t), 't%d' % k) for k, t in enumerate(parts)) +
+               "q = p.append(%s)\nexpected = %r\n" % (', '.join('t%d' % k for k in range(len(parts))),
+                                                        pa + [a for t in parts for a in _axes_of(t)]) + axw)
+        probe('append-axiswise', 'append(*parts) concatenates the axes', src)
+    for _ in range(30 * N):
+        nd = rng.choice([1, 2, 3, 4])
+        axes = [rand_axis(rng, 4, n=rng.choice([1, 1, 2, 3])) for _ in range(nd)]
+        sel = rng.choice([None, rng.randrange(nd), sorted(rng.sample(range(nd), rng.randint(0, nd)))])
+        rng_ = list(range(nd)) if sel is None else ([sel] if isinstance(sel, int) else sel)
+        exp = [(a[0], a[1], list(a[2])) for i, a in enumerate(axes) if i not in rng_ or len(a[2]) > 1]
+        src = _PRE + _mk_src(axes) + "q = p.squeeze(%r)\nexpected = %r\n" % (sel, exp) + axw
+        probe('squeeze-axiswise', 'squeeze(axis) removes exactly the selected one-point axes', src)
+        sq = rng.choice([rng.randrange(nd), [rng.randrange(-nd, nd) for _ in range(rng.randint(1, 4))]])
+        exp = [(axes[i][0], axes[i][1], list(axes[i][2])) for i in ([sq] if isinstance(sq, int) else sq)]
+        src = _PRE + _mk_src(axes) + "q = p.byaxis[%r]\nexpected = %r\n" % (sq, exp) + axw
+        probe('byaxis-axiswise', 'byaxis[sel] is the partition made of the selected axes', src)
+
+    # -- P6 every consistent subset of (min_pt, max_pt, shape, cell_sides) gives the same partition
+    for _ in range(40 * N):
+        xmin, xmax, n, dx, fl = uniform_axis_params(rng, dyadic=rng.random() < 0.5)
+        if n - (fl[0] + fl[1]) / 2.0 <= 0:
+            continue
+        src = (_PRE + "kw = dict(min_pt=%r, max_pt=%r, shape=%d, cell_sides=%r)\n"
+               "ps = [odl.uniform_partition(nodes_on_bdry=[%r], **{k: v for k, v in kw.items() if k != d}) for d in (None, 'min_pt', 'max_pt', 'shape', 'cell_sides')]\n"
+               "ok = all(q.approx_equals(ps[0], atol=1e-12) and q.shape == ps[0].shape for q in ps)\n"
+               "ok = ok and all(abs(q.cell_sides[0] - kw['cell_sides']) <= 1e-12 for q in ps)\n"
+               "ok = ok and all(q.nodes_on_bdry_byaxis[0] == %r for q in ps)\n"
+               "observed = [(q.min_pt[0], q.max_pt[0], q.shape[0], q.cell_sides[0]) for q in ps]; expected = kw\n"
+               % (xmin, xmax, n, dx, fl, fl))
+        key = 'uniform-one-point-nodes-on-bdry' if (n == 1 and any(fl)) else 'uniform-parameter-subsets'
+        probe(key, 'all consistent subsets of (min_pt, max_pt, shape, cell_sides) describe the same partition with that cell side', src)
+    return out
 
 
 RULE = ('random operations on random rectangular partitions (1-4 axes, 1-7 points per axis, dyadic limits, '
